@@ -8,7 +8,7 @@ COMMON_TRUSTED = [
 ]
 
 PROPS = {}
-HOOK_COMMITS = ["f0964c3", "f0ee85c", "a38392f", "da161e5", "5e35e30"]
+HOOK_COMMITS = ["f0964c3", "f0ee85c", "a38392f", "da161e5", "5e35e30", "48a35e4"]
 NOT_BUILT_REASON = "no check registered yet: the Lean model/theorems and the correspondence harness for this property have not been built in this session (work in progress, see DESIGN.md §12); the technique applies"
 
 PROPS["C05"] = {
@@ -267,6 +267,24 @@ PROPS["C17"] = {
     "not_proved": ["ber2der idempotent on DER as a theorem over Obj", "PKCS#12 MAC / PBE as theorems (stdlib crypto)", "no-other-key as an unconditional statement"],
 }
 
+PROPS["C18"] = {
+    "modules": ["Gmsm.Props.C18", "Gmsm.Props.C02", "Gmsm.Props.C17", "Gmsm.Props.C16"],
+    "theorems": [
+        "Props.C18.readObject_progress", "Props.C18.readItems_progress", "Props.C18.fuel_sufficient",
+        "Props.C18.fuel_sufficient_items", "Props.C18.ber2der_total", "Props.C18.readObject_fuel_mono",
+        "Props.C18.readItems_fuel_mono", "Props.C18.fuel_irrelevant", "Props.C18.ber2der_fuel_irrelevant",
+        "Props.C18.readTag_bounds", "Props.C18.readTag_fuel",
+        "Props.C02.decrypt_rejects_short", "Props.C17.unpad_sound", "Props.C16.altered_ticket_never_resumes",
+    ],
+    "gen_items": [],
+    "level": "proof",
+    "claim": "Where a Lean model of a decoder exists, totality and resource bounds are theorems for every byte string: the BER transcoder model (tied to x509/ber.go by exact-output correspondence in C17 and here) is total by construction, every object it reads consumes at least two bytes and never claims bytes beyond the input (readObject_progress / readItems_progress), and the recursion is bounded by the remaining input: with fuel 2*(len-off)+1 the model never runs out (fuel_sufficient, ber2der_total) and the result does not depend on the fuel (fuel_irrelevant) — i.e. the stack depth and loop count of the real recursive descent are at most linear in the input; the repaired code additionally refuses nesting deeper than 128. The SM2 ciphertext parser (C02 decrypt_rejects_short: short input is an error, never an out-of-range slice), PKCS#7 unpad (C17 unpad_sound) and the ticket gate (C16) are total functions with the error branches proved. For all 62 decoder entry points of the library (sm2 Decrypt in both orderings / DecryptAsn1 / CipherUnmarshal / CipherMarshal / Verify / Decompress; x509 certificates, requests, CRLs, PKCS#7 + Verify/Decrypt/DecryptSM2 with every key-type combination incl. nil and typed nil, BER, PKCS#8 with and without password, PEM and hex keys; pkcs12 Decode/DecodeAll/ToPEM incl. correctly MAC-ed mutated contents; sm4 key PEM; all 16 gmtls handshake message parsers, the session-state parser and decryptTicket incl. correctly sealed mutated states) the check runs the quantifier's derivation on a corpus of valid encodings made by the library: every truncation, single-byte substitutions from {00,01,7f,80,ff,b^1,b^80}, every TLV length rewritten to {0,len-1,len+1,80,84ffffffff}, universal tag swaps, consistent re-sizing of elements, BER nesting 10..10^4 in definite and indefinite form, empty input and random strings (about 26000 ops quick, 296000 thorough); each call runs under recover with wall-time (max(2 s, 100 us/byte)) and allocation (64 MiB + 1024/byte) limits, decoded values are then used (verification, decryption, chain building) so that lazily crashing values count.",
+    "note": "Partial: panic-freedom of the Go decoders themselves is decided by the mutation sweep, not by generated verification conditions (the VC generator of the design was not built); theorems cover the modelled decoders only (BER, SM2 ciphertext split, unpad, ticket gate). Password-stretching iteration counts carried by PKCS#8 / PKCS#12 inputs are exempt from the time limit, as the property says.",
+    "trusted_base": ["Model.BER tied by the ber2der op (C17 generator plus the C18 nesting inputs)", "harness/c18.go limits and decoder table; hooks gmtls/pkcs12 export_verif_c18.go (parsers, ticket and PFX re-sealing)", "Go runtime recover() semantics; runtime.MemStats for the allocation measure"],
+    "assumptions": [],
+    "not_proved": ["no-panic of encoding/asn1-based parsers and of the hand-written gmtls message parsers as theorems"],
+}
+
 PROPS["C16"] = {
     "modules": ["Gmsm.Props.C16"],
     "theorems": [
@@ -301,4 +319,21 @@ PROPS["C06"] = {
     "trusted_base": ["Model.Negotiate tied by the hs op; extract/tls.go table extraction", "Spec.TLSPRF transcribes GM/T 0024 6.5 / RFC 5246 5 (validated by decoding real connections: Finished values and records)", "crypto/tls (stdlib) as the reference TLS implementation"],
     "assumptions": [],
     "not_proved": ["record fragmentation/reassembly of application data as a theorem (C07 has the record-layer theorems)", "key agreement correctness (both ends derive the same pre-master secret) as a theorem"],
+}
+
+PROPS["C20"] = {
+    "modules": ["Gmsm.Props.C20"],
+    "theorems": [
+        "Props.C20.sm4_order_independent", "Props.C20.sm4_interleaving", "Props.C20.sm3_objects_independent",
+        "Props.C20.ticket_keys_snapshot", "Props.C05.history_independent", "Props.C04.hist_refines",
+    ],
+    "gen_items": [],
+    "race": True,
+    "par_chunk": 3,
+    "level": "proof",
+    "claim": "What is proved: the sequential models of the shared objects are order-independent — every Encrypt/Decrypt result on one shared SM4 object is the GM/T 0002 value of that call's own source block for every call sequence, hence for every interleaving of any number of callers' sequences (sm4_order_independent, sm4_interleaving, from C05.history_independent); hash objects from the constructor are independent (sm3_objects_independent, from C04.hist_refines); a ticket lookup concurrent with a key rotation sees the old or the new key list, never a mixture (ticket_keys_snapshot). These make 'equals the single-threaded result' a well-defined oracle. What is run: ten concurrent scenarios (one shared sm4 cipher.Block also under CBC/GCM; the package-level sm4 helpers; sm3 constructors, HMAC, PBKDF2; SM2 sign/verify/encrypt/decrypt/key exchange on one shared key and on separate keys; first use of the curve from many goroutines in a fresh process; parsers on shared inputs; PKCS#7 encryption; one CertPool under concurrent Verify with succeeding and failing options; many simultaneous GMSSL handshakes on one server Config and one client Config with an LRU session cache while SetSessionTicketKeys rotates keys; concurrent writers, readers and three concurrent Close calls on one established GMSSL-CBC / GMSSL-GCM / TLS 1.2 connection), each in its own process built with the Go race detector (halt on first report), 2..32 goroutines released together with seeded scheduling jitter; every concurrent result is compared with the result of the same calls run sequentially on identical fresh objects.",
+    "note": "Partial by nature: data-race freedom and the outcome of real schedules are properties of the Go runtime and memory model that no executable Lean model exhibits; the race detector only sees the interleavings that occur in the runs (quick: 20 scenario runs, thorough: 120). The theorems are about sequential order-independence of the modelled cores only (SM4 object, SM3 object, ticket-key snapshot); Conn's locking discipline (handshakeMutex, in/out mutexes, activeCall) is exercised by the tlsconn scenario, not modelled.",
+    "trusted_base": ["Go race detector (ThreadSanitizer runtime shipped with the toolchain)", "harness/c20.go scenarios and sequential reference pass", "Model.SM4 / Model.SM3 / Model.Resume ties of C05, C04, C16"],
+    "assumptions": ["a concurrent execution of whole calls on a correctly synchronised object is equivalent to some sequential order (linearizability is what the race-free, lock-protected code provides; it is not proved)"],
+    "not_proved": ["race freedom for all schedules (race detector, sampled)", "Conn Read/Write/Close interlock as a model"],
 }
